@@ -523,6 +523,11 @@ def to_val(v):
   if isinstance(v, VClass):
     if isinstance(v.cls, str) and v.cls in TYPE_IDS:
       return Val.VT(z3.IntVal(TYPE_IDS[v.cls]))
+    if isinstance(v.cls, str):
+      from pyvc.loader import BUILTIN_EXC
+      names = sorted(BUILTIN_EXC)
+      if v.cls in names:
+        return Val.VT(z3.IntVal(100 + names.index(v.cls)))
     if hasattr(v.cls, 'uid') and hasattr(v.cls, 'methods') and not hasattr(v.cls, 'members'):
       return Val.VT(z3.IntVal(1000 + v.cls.uid))
   if isinstance(v, VCallable):
